@@ -5,6 +5,7 @@ namespace GoRes.Driver.Legacy
 open GoRes GoRes.Wire GoRes.Legacy
 
 structure DSt where
+  indexed : Bool := false         -- package resbadger, typed model with the index set {ia: member a, ib: member b}
   cfg : Cfg := ⟨true, none, false⟩
   stored : Option LVal := none
   history : List Ev := []         -- successfully applied events since the configuration (specification side)
@@ -63,10 +64,26 @@ def run (d : DSt) (args : List Str) : DSt × String × String × String :=
       match rest with
       | pkg :: t :: dk :: drest =>
         let isModel := t = str "model"
-        ({ cfg := ⟨isModel, if dk = str "D" then parseVal isModel drest else none, pkg = str "rb"⟩ }, "ok", "-", "triv-cfg")
+        -- deleting a resource that is not stored is an error only in package resbadger without an index
+        -- set (its typed-value decoding of nothing fails); with an index set the decoding is skipped
+        ({ cfg := ⟨isModel, if dk = str "D" then parseVal isModel drest else none, pkg = str "rb"⟩,
+           indexed := pkg = str "rbi" }, "ok", "-", "triv-cfg")
       | _ => bad
     else if c = str "change" then
       doEv (.change ((pairs rest).map fun (k, v) => (k, if v = del then none else some v))) "change"
+    else if c = str "iq" then
+      -- the query collection over the index set: the resource is listed under index `ia`/`ib` iff the
+      -- stored model has the member `a`/`b`, keyed by the member's JSON text
+      match rest with
+      | [ix, pre] =>
+        let member : Str := if ix = str "ia" then str "a" else str "b"
+        let of (v : Option LVal) : String := match v with
+          | some (.model m) => (match mget m member with
+            | some text => if pre.isPrefixOf text then "[svc.r]" else "[]"
+            | none => "[]")
+          | _ => "[]"
+        (d, of d.stored, of (fold d.cfg none d.history), if of d.stored = "[]" then "iq-empty" else "iq-hit")
+      | _ => bad
     else if c = str "add" then
       match rest with | [v, i] => doEv (.add v (int i)) "add" | _ => bad
     else if c = str "remove" then
